@@ -253,6 +253,11 @@ def run_case(case):
         vol = g.integers(0, 5, size=(nc, size[2], size[1], size[0])).astype(dt)
     elif dt.kind == "f":
         vol = g.integers(-1000, 1000, size=(nc, size[2], size[1], size[0])).astype(dt) / 4
+        if case["vseed"] % 3 == 1:
+            # masked data: some voxels are not-a-number; their blocks are, too, whichever
+            # way the scales are cut into chunks
+            vol[g.random(vol.shape) < 0.04] = np.nan
+            obs["volumes_with_nan_voxels"] = 1
     else:
         vol = g.integers(0, min(np.iinfo(dt).max, 2 ** 40), size=(nc, size[2], size[1],
                                                                     size[0]),
@@ -511,6 +516,7 @@ def gates(obs, tier):
             "default_chunk_size_three_scales", 0) > 0,
         "downscale_contract_evaluated": ce.get("downscale", 0) > 1000,
         "damaged_source_scales": obs.get("damaged_source_runs", 0) > 5,
+        "float_volumes_with_nan_voxels": obs.get("volumes_with_nan_voxels", 0) > 2,
         "downscale_contract_evaluated_under_the_repository_tests": obs.get(
             "repo_tests_contract_evaluations", {}).get("downscale", 0) > 0,
     }
